@@ -1354,12 +1354,16 @@ func (enc *VP8Encoder) EncodeFrame() ([]byte, error) {
 	if doSearch && maxPasses < 3 {
 		maxPasses = 3 // ensure enough passes for rate control convergence
 	}
-	// Use parallel encoding when:
-	// - Multiple CPU cores available (GOMAXPROCS > 1)
+	// Use the row-pipelined encoder when:
 	// - Enough rows for meaningful parallelism (mbH >= 4)
 	// - Method >= 3 (RD-based mode selection, which is the hot path)
 	// - Single-pass quality mode (no rate control iteration)
-	useParallel := runtime.GOMAXPROCS(0) > 1 && enc.mbH >= 4 && enc.config.Method >= 3 && !doSearch
+	// The choice must not depend on GOMAXPROCS: the serial and the pipelined
+	// encoder produce different (both valid) bitstreams, and Encode's output
+	// is documented to depend only on img and opts. The pipelined encoder's
+	// output does not depend on its worker count; with GOMAXPROCS=1 it simply
+	// runs with a single worker.
+	useParallel := enc.mbH >= 4 && enc.config.Method >= 3 && !doSearch
 	useParallel = useParallel && verifhook.Workers("lossy.switch", 2) > 1
 
 	var stats ProbaStats
